@@ -118,6 +118,11 @@ func c04Sets(tier string) []c04Set {
 		c04Set{"very long string value", [][]any{{map[string]any{"a": 1, "s": long, "z": "after"}, map[string]any{"second": true}}, {map[string]any{"$match": map[string]any{"a": 1}, "y": 1}}}},
 		c04Set{"very long list", [][]any{{map[string]any{"a": 1, "l": many, "z": "after"}}, {map[string]any{"z": "upper"}}}},
 	)
+	// non-ASCII text in a multi-document stream (byte and character offsets differ before a separator)
+	sets = append(sets,
+		c04Set{"non-ascii before a document separator", [][]any{{map[string]any{"a": 1, "s": "é€😀 naïve"}, map[string]any{"a": 2, "t": "日本語"}, map[string]any{"a": 3}}, {map[string]any{"$match": map[string]any{"a": 2}, "y": "ü"}}}},
+		c04Set{"non-ascii keys", [][]any{{map[string]any{"clé": 1, "ключ": map[string]any{"値": "x"}}, map[string]any{"b": 2}}, {map[string]any{"clé": 2}}}},
+	)
 	return sets
 }
 
@@ -244,6 +249,9 @@ func buildC04(tier string) *core.Plan {
 				map[string]any{"base": map[string]any{"k": n}, "l": []any{map[string]any{"k": n}, map[string]any{"k": m}}, "m": map[string]any{"k": n, "z": 1}}},
 			tmpl{"yaml-merge-list", "yaml", fmt.Sprintf("x: &x {a: %s, b: 1}\ny: &y {a: %s, c: 2}\nz:\n  <<: [*x, *y]\n  d: 3\n", ns, ms),
 				map[string]any{"x": map[string]any{"a": n, "b": 1}, "y": map[string]any{"a": m, "c": 2}, "z": map[string]any{"a": n, "b": 1, "c": 2, "d": 3}}},
+			tmpl{"yaml-merge-list-equal-scalar-and-nested-maps", "yaml", fmt.Sprintf("x: &x {same: 1, n: {p: %s}, f: 2.0}\ny: &y {same: 1, n: {q: %s}}\nz:\n  <<: [*x, *y]\n  d: 3\nw:\n  <<: *x\n  n: {r: 0}\n", ns, ms),
+				map[string]any{"x": map[string]any{"same": 1, "n": map[string]any{"p": n}, "f": 2.0}, "y": map[string]any{"same": 1, "n": map[string]any{"q": m}},
+					"z": map[string]any{"same": 1, "n": map[string]any{"p": n}, "f": 2.0, "d": 3}, "w": map[string]any{"same": 1, "n": map[string]any{"r": 0}, "f": 2.0}}},
 			tmpl{"yaml-merge-override", "yaml", fmt.Sprintf("x: &x {a: %s}\nz:\n  a: %s\n  <<: *x\n", ns, ms),
 				map[string]any{"x": map[string]any{"a": n}, "z": map[string]any{"a": m}}},
 			tmpl{"yaml-block-scalars", "yaml", fmt.Sprintf("n: %s\ns: |\n  line1\n  line2\nt: >-\n  folded\n  text\nu: 'it''s'\n", ns),
